@@ -155,7 +155,7 @@ def csv_holds(path, df, dec):
     import pandas as pd
     if not os.path.exists(path):
         return False
-    got = pd.read_csv(path)
+    got = pd.read_csv(path, float_precision="round_trip")
     if [str(c) for c in got.columns] != [str(c) for c in df.columns] or len(got) != len(df):
         return False
     return all(_num_close(got[c].to_numpy(), df[c].to_numpy(), dec) for c in got.columns)
@@ -343,6 +343,7 @@ def _fill_args(W, s):
     W.flavours("ppp", s, np.ones(d, dtype=np.int64), "pr")
     sig = 0.5 * (np.linspace(1.0, 0.7, K)[:, None] + np.linspace(1.0, 0.7, K)[None, :]) * W.scale
     W.flavours("sigmas", s, sig, "pr")
+    W.flavours("s2sig", s, 0.3 * sig, "pr")
     W.flavours("eps", s, 1.0 + 0.25 * np.add.outer(np.arange(K), np.arange(K)), "p")
     W.flavours("rcuts", s, 1.6 * sig)
     W.flavours("ngrids", s, np.array([3, 2] if d == 2 else [2, 3, 2], dtype=np.int64), "p")
@@ -1013,7 +1014,7 @@ def m_nematic_time(Z, s, v):
 def c_s2(Z, s, v):
     from PyMatterSim.static.pairentropy import S2
     W = Z.W
-    o = S2(W.S[s], sigmas=0.3 * W.fl("sigmas", s, 2 * v), ppp=_ppp(Z, s, v), rdelta=0.1 * W.scale, ndelta=20)
+    o = S2(W.S[s], sigmas=W.fl("s2sig", s, 2 * v), ppp=_ppp(Z, s, v), rdelta=0.1 * W.scale, ndelta=20)
     Z.obj[("s2", s)], Z.cv[("s2", s)] = o, (v, None)
     return Z.state_digest("s2", s), None
 
@@ -1082,7 +1083,7 @@ def m_dyn_sq4(Z, s, v):
     if v == 0:
         return o.sq4(t=t, qrange=Z.W.qrange), None
     out = Z.out(".csv")
-    r = o.sq4(t=2 * t, qrange=Z.W.qrange, condition=Z.W.a("cond_b", s), outputfile=out)
+    r = o.sq4(t=t * min(2, Z.W.T[s] - 1), qrange=Z.W.qrange, condition=Z.W.a("cond_b", s), outputfile=out)
     return r, csv_holds(out, r, None)
 
 
@@ -1142,3 +1143,403 @@ IMPL = {
     "LogDynamics": c_logdyn, "LogDynamics.relaxation": m_logdyn_relaxation,
     "HessianMatrix": c_hess, "HessianMatrix.diagonalize_hessian": m_hess_diag,
 }
+
+
+# ----------------------------------------------------------------------------
+# executing schedules
+# ----------------------------------------------------------------------------
+
+WORLDS = {}      # name -> World            (built in the parent before the pool forks)
+OBJS = {}        # name -> shared_objects(World)
+REG = []         # the registry printed by TLC (list of dicts, index = entry number - 1)
+
+
+def _digests(Z, objs):
+    return [g(Z) for (_n, _o, _t, g) in objs]
+
+
+def run_session(job):
+    """Executes the steps of one schedule literally, in this (freshly forked) process."""
+    import tempfile
+    W = WORLDS[job["w"]]
+    objs = OBJS[job["w"]]
+    sdir = tempfile.mkdtemp(prefix="sess_", dir=W.dir)
+    os.chdir(sdir)
+    warnings.simplefilter("ignore")
+    np.seterr(all="ignore")
+    try:
+        import freud
+        freud.parallel.set_num_threads(1)
+    except Exception:
+        pass
+    out = {"sid": job["sid"], "w": job["w"], "calls": []}
+    try:
+        Z = Sess(W, sdir)
+        cur = _digests(Z, objs)
+        out["begin"] = cur
+        for (e, s, v) in job["steps"]:
+            name = REG[e - 1]["n"]
+            before = _digests(Z, objs)
+            rec = {"e": e, "s": s, "v": v, "before": before, "err": None}
+            t0 = time.time()
+            try:
+                res, fok = IMPL[name](Z, s, v)
+                rec["res"] = dg_deep(res)
+                rec["fok"] = 2 if fok is None else (1 if fok else 0)
+            except MachineryError:
+                raise
+            except Exception as ex:      # an exception on a valid input is a finding, not a machinery failure
+                rec["err"] = f"{type(ex).__name__}: {str(ex)[:160]}"
+                rec["res"] = "EXC:" + type(ex).__name__
+                rec["fok"] = 2
+                rec["tb"] = traceback.format_exc()[-600:]
+            rec["wall"] = round(time.time() - t0, 4)
+            rec["after"] = _digests(Z, objs)
+            rec["cur"] = [Z.h[1].frame(), Z.h[2].frame()]
+            out["calls"].append(rec)
+            if rec["err"]:
+                break
+    finally:
+        os.chdir("/")
+        shutil.rmtree(sdir, ignore_errors=True)
+    return out
+
+
+def _in_child(job):
+    """one session per process: module-level state of the library can never leak between sessions"""
+    import pickle
+    r, w = os.pipe()
+    pid = os.fork()
+    if pid == 0:
+        code = 0
+        try:
+            os.close(r)
+            try:
+                res = run_session(job)
+            except BaseException:
+                res = {"sid": job["sid"], "w": job["w"], "machinery": traceback.format_exc()[-1500:]}
+            with os.fdopen(w, "wb") as f:
+                pickle.dump(res, f)
+        except BaseException:
+            code = 1
+        finally:
+            os._exit(code)
+    os.close(w)
+    with os.fdopen(r, "rb") as f:
+        data = f.read()
+    _, status = os.waitpid(pid, 0)
+    if not data:
+        return {"sid": job["sid"], "w": job["w"], "machinery": f"session process died (status {status})"}
+    return pickle.loads(data)
+
+
+def call_name(e, s, v):
+    return f"{REG[e - 1]['n']}[target {s}, variant {v}]"
+
+
+# ----------------------------------------------------------------------------
+# specification side
+# ----------------------------------------------------------------------------
+
+def mc_constants(tier, world, mode, impure="none", gen=False):
+    return {"Tier": tier, "WorldName": world, "Mode": mode, "Impure": impure, "Gen": gen, "Seed": common.SEED % 1000}
+
+
+NONVACUOUS = [("mutate", "InputsUnchanged"), ("mutate", "RepeatAgrees"), ("cache", "RepeatAgrees"),
+              ("file", "FileHoldsReturned"), ("state", "StateOnlyByOwner"), ("state", "RepeatAgrees"),
+              ("cursor", "CursorOnlyByReader"), ("cursor", "RepeatAgrees")]
+
+
+def model_phase(chk, tier, worlds):
+    """TLC: invariants + emission per world and mode, non-vacuity of every invariant.  Returns {(mode, world): cases}."""
+    import concurrent.futures as cf
+    jobs = {}
+    nsh = 4 if tier == "quick" else common.JOBS
+
+    def gen(world, mode):
+        return run_tlc_sharded("MC_Session", dict(constants=mc_constants(tier, world, mode, gen=True),
+                                                  invariants=MODEL_INVS + ["Emit"]), nshards=nsh, timeout=7200)
+
+    def imp(kind, inv):
+        c = dict(mc_constants("quick", "w2", "mini", impure=kind), SHARD=0, NSHARDS=1)
+        return run_tlc("MC_Session", dict(constants=c, invariants=[inv]))
+
+    with cf.ThreadPoolExecutor(max_workers=max(1, common.JOBS // nsh)) as ex:
+        for w in worlds:
+            jobs[("fgf", w)] = ex.submit(gen, w, "fgf")
+        for w in worlds:
+            if tier == "thorough" or w in ("w2", "w3"):
+                jobs[("all3", w)] = ex.submit(gen, w, "all3")
+        for kind, inv in NONVACUOUS:
+            jobs[("imp", kind, inv)] = ex.submit(imp, kind, inv)
+        res = {k: f.result() for k, f in jobs.items()}
+    cases = {}
+    for k, r in res.items():
+        if k[0] == "imp":
+            if r.violated != k[2]:
+                raise MachineryError(f"non-vacuity: adding the impure action '{k[1]}' to Next should violate {k[2]}, "
+                                     f"TLC reported {r.violated!r} {r.error or ''}")
+            chk.extra.setdefault("nonvacuity", []).append({"impure_action": k[1], "violates": k[2], "states": r.distinct})
+            continue
+        require_model_ok(r, f"MC_Session {k}")
+        if not r.cases:
+            raise MachineryError(f"no schedules emitted for {k}")
+        chk.add_tlc(r, f"MC_Session {k[1]} {k[0]}")
+        cases[k] = r.cases
+    return cases
+
+
+def get_registry(tier):
+    c = dict(mc_constants(tier, "w2", "registry"), SHARD=0, NSHARDS=1)
+    r = run_tlc("MC_Session", dict(constants=c, invariants=["Emit"]))
+    require_model_ok(r, "MC_Session registry")
+    if len(r.cases) != 1:
+        raise MachineryError("registry not printed")
+    reg, worlds = r.cases[0]["reg"], r.cases[0]["worlds"]
+    names = [e["n"] for e in reg]
+    if set(names) != set(IMPL) or len(names) != len(set(names)):
+        raise MachineryError(f"registry of Session.tla and the harness differ: {sorted(set(names) ^ set(IMPL))}")
+    return reg, worlds
+
+
+def validate_world(world, header, records, timeout=3600):
+    """TraceSession.tla on all sessions of one world; returns (TlcResult, [(record index, clause)], memo size)."""
+    import tempfile
+    tmp = tempfile.mkdtemp(prefix="verif_trace_")
+    try:
+        path = os.path.join(tmp, "trace.ndjson")
+        with open(path, "w") as f:
+            for rec in [header] + records:
+                f.write(json.dumps(rec, separators=(",", ":")) + "\n")
+        r = run_tlc("TraceSession", dict(invariants=["Report"]), workers=1, timeout=timeout, env={"TRACE_FILE": path})
+        if r.violated or r.error or len(r.cases) != 1:
+            raise MachineryError(f"trace validation of world {world} failed:\n{r.error or r.violated or r.stdout[-2000:]}")
+        rep = r.cases[0]
+        if rep["n"] != len(records) + 1:
+            raise MachineryError(f"TraceSession consumed {rep['n']} of {len(records) + 1} records")
+        return r, [(int(x[0]) - 2, x[1]) for x in rep["rej"]], rep["keys"]
+    finally:
+        shutil.rmtree(tmp, ignore_errors=True)
+
+
+# ----------------------------------------------------------------------------
+# selection, replay, verdicts
+# ----------------------------------------------------------------------------
+
+def select_sessions(tier, cases, rng):
+    """quick: every call (entry point x target x variant) of every world at least once as the f of an
+    f, g, f schedule - with g the same entry point on the other target / another variant where the
+    specification emitted one, and once more with a seeded random g (small worlds) - plus a seeded sample
+    of the general length-3 words.  thorough: everything TLC emitted."""
+    chosen = []
+    for (mode, w), cs in sorted(cases.items()):
+        cs = sorted(cs, key=lambda c: json.dumps(c["word"]))
+        if tier == "thorough":
+            chosen += cs
+            continue
+        if mode == "all3":
+            chosen += rng.sample(cs, min(len(cs), 160))
+            continue
+        byf = {}
+        for c in cs:
+            byf.setdefault(tuple(c["word"][0]), []).append(c)
+        heavy = w.startswith("s")
+        for f, lst in sorted(byf.items()):
+            partner = [c for c in lst if c["word"][1][0] == f[0] and tuple(c["word"][1]) != f]
+            other = [c for c in partner if c["word"][1][1] != f[1]]
+            rest = [c for c in lst if c["word"][1][0] != f[0]]
+            pick = []
+            if other or partner:
+                pick.append(rng.choice(other or partner))
+            if rest and (not heavy or not pick):
+                pick.append(rng.choice(rest))
+            if not pick:
+                pick.append(rng.choice(lst))
+            chosen += pick
+    for i, c in enumerate(chosen):
+        c["sid"] = i
+    return chosen
+
+
+class Reporter:
+    """at most MAXREP violations per (clause, call) are listed with a replay file"""
+    MAXREP = 2
+
+    def __init__(self, chk):
+        self.chk, self.count = chk, {}
+
+    def violation(self, clause, call, case):
+        key = (clause, call)
+        self.count[key] = self.count.get(key, 0) + 1
+        if self.count[key] <= self.MAXREP:
+            self.chk.violation(clause, case, finding_key=f"{clause}@{call}")
+        else:
+            self.chk.extra["violations_not_listed"] = self.chk.extra.get("violations_not_listed", 0) + 1
+
+
+def execute(chosen, jobs=None):
+    import multiprocessing as mp
+    todo = [{"sid": c["sid"], "w": c["w"], "steps": c["steps"]} for c in chosen]
+    jobs = min(jobs or common.JOBS, max(1, len(todo)))
+    if jobs <= 1:
+        return [_in_child(j) for j in todo]
+    with mp.get_context("fork").Pool(jobs) as pool:
+        return pool.map(_in_child, todo, chunksize=1)
+
+
+def build_traces(chosen, results, rep):
+    """direction A comparison (same / cursor / file flags against the schedule the spec printed) and the
+    per-world traces for TraceSession (digest classes by first occurrence, delta-encoded vectors)."""
+    traces, index = {}, {}
+    classes = {}
+
+    def cls(w, d):
+        t = classes.setdefault(w, {})
+        return t.setdefault(d, len(t) + 1)
+
+    nsteps = 0
+    for case, out in zip(chosen, results):
+        w = case["w"]
+        if "machinery" in out:
+            raise MachineryError(f"session {case['word']} in world {w} failed in the harness:\n{out['machinery']}")
+        names = [o[0] for o in OBJS[w]]
+        recs = traces.setdefault(w, [])
+        idx = index.setdefault(w, [])
+        recs.append({"op": "begin", "ver": [cls(w, d) for d in out["begin"]]})
+        idx.append((case, None))
+        prev = out["begin"]
+        okA = True
+        for i, c in enumerate(out["calls"]):
+            nsteps += 1
+            call = call_name(c["e"], c["s"], c["v"])
+            info = {"world": w, "word": case["word"], "steps": case["steps"], "step": i + 1, "call": call}
+            d0 = [[j + 1, cls(w, b)] for j, (a, b) in enumerate(zip(prev, c["before"])) if a != b]
+            d1 = [[j + 1, cls(w, b)] for j, (a, b) in enumerate(zip(c["before"], c["after"])) if a != b]
+            recs.append({"op": "call", "e": c["e"], "s": c["s"], "v": c["v"], "d0": d0, "d1": d1, "res": cls(w, "r" + c["res"]),
+                         "err": 1 if c["err"] else 0, "fok": c["fok"], "cur": c["cur"]})
+            idx.append((case, i))
+            prev = c["after"]
+            # ---- direction A: the schedule as the specification printed it
+            if c["err"]:
+                rep.violation("raises:" + c["err"].split(":")[0], call, dict(info, error=c["err"], traceback=c.get("tb", "")))
+                okA = False
+                break
+            j = case["same"][i]
+            if j and out["calls"][j - 1]["res"] != c["res"]:
+                rep.violation("A:RepeatDiffers", call, dict(info, same_identity_as_step=j, note="result digests differ"))
+                okA = False
+            if c["cur"] != case["cur"][i]:
+                rep.violation("A:CursorMoved", call, dict(info, expected_frames_consumed=case["cur"][i], observed=c["cur"]))
+                okA = False
+            if (case["wr"][i] == 1) != (c["fok"] != 2):
+                raise MachineryError(f"{call}: the specification says the step writes a file = {case['wr'][i]}, harness fok = {c['fok']}")
+            if c["fok"] == 0:
+                rep.violation("A:FileDiffers", call, dict(info, note="output file does not hold the returned value to the written precision"))
+                okA = False
+        case["_okA"] = okA
+    return traces, index, nsteps
+
+
+def header_record(w):
+    W = WORLDS[w]
+    d = world_descriptor(W)
+    objs = OBJS[w]
+    return {"op": "world", "dim": d["dim"], "T": d["T"], "lin": [int(x) for x in d["lin"]], "ori": [int(x) for x in d["ori"]],
+            "heavy": int(d["heavy"]), "names": [o[0] for o in objs], "owner": [o[1] for o in objs], "ot": [o[2] for o in objs]}
+
+
+def setup(tier, worlds, tmp):
+    global REG
+    REG, wdesc = get_registry(tier)
+    for w in worlds:
+        W = BUILDERS[w](tmp, common.SEED)
+        d = world_descriptor(W)
+        if d != wdesc[w]:
+            raise MachineryError(f"world {w}: built {d}, MC_Session.tla describes {wdesc[w]}")
+        WORLDS[w] = W
+        OBJS[w] = shared_objects(W)
+
+
+def run(tier, replay=None):
+    import tempfile
+    common.import_lib()
+    import PyMatterSim.static.boo, PyMatterSim.static.vector, PyMatterSim.static.nematic, PyMatterSim.static.pairentropy  # noqa
+    import PyMatterSim.static.hessians, PyMatterSim.static.geometric, PyMatterSim.static.shape, PyMatterSim.dynamic.dynamics  # noqa
+    import PyMatterSim.neighbors.freud_neighbors, PyMatterSim.utils.fft, PyMatterSim.utils.geometry, PyMatterSim.utils.coarse_graining  # noqa
+    chk = Check("C18", tier)
+    chk.rule = ("Session.tla is pure by construction; MC_Session (TLC) checks InputsUnchanged, RepeatAgrees, ResultDetermined, "
+                "FileHoldsReturned, StateOnlyByOwner, CursorOnlyByReader, PlannedOnly on every call word (all f,g,f over all "
+                "entry point x target x variant calls; all words <= 3 over the entry points) and shows each invariant violated "
+                "by the impure action it forbids.  A: emitted schedules executed literally against the real code, one fresh "
+                "process per session; `same`, cursor and file flags compared.  B: digest classes of every shared array / file / "
+                "object state before and after every call, of the result, file-vs-returned check; TraceSession.tla decides "
+                "(memo shared across all sessions of a world).  distinct = sessions; all execute at least one library call.")
+    chk.assumptions = ["BLAS / OpenMP / freud threads capped at 1 (bitwise repeatability is asserted for single-threaded runs)",
+                       "the abstract value of a call is a function of its identity and of the versions of the shared objects",
+                       "digest = sha1 of bytes, dtype, shape, strides, writeable flag; results compared bitwise (NaN-safe)",
+                       "output files compared with the returned value to the precision the routine writes"]
+    worlds = ["w2", "w3", "s2", "s3"]
+    tmp = tempfile.mkdtemp(prefix="verif_c18_")
+    try:
+        if replay:
+            case = common.load_replay(replay)["case"]
+            w = case["world"]
+            setup(tier, [w], tmp)
+            out = _in_child({"sid": 0, "w": w, "steps": case["steps"]})
+            names = [o[0] for o in OBJS[w]]
+            print("schedule:", [call_name(*c) for c in case["steps"]])
+            for c in out.get("calls", []):
+                ch = [names[j] for j, (a, b) in enumerate(zip(c["before"], c["after"])) if a != b]
+                print(f"  {call_name(c['e'], c['s'], c['v'])}: result {c['res']} file_ok {c['fok']} handles {c['cur']} "
+                      f"changed objects {ch} {c['err'] or ''}")
+            print("expected: no shared object changes except state arrays owned by the constructor / setter called; "
+                  "equal call identities give equal results; files hold the returned values")
+            return 0
+        # ---- the model: invariants on every word, non-vacuity, schedules
+        setup(tier, [], tmp)
+        cases = model_phase(chk, tier, worlds)
+        chk.exhaustive = True
+        chk.extra["schedules_emitted"] = {f"{k[1]}:{k[0]}": len(v) for k, v in cases.items()}
+        # ---- direction A + B
+        setup(tier, worlds, tmp)
+        rng = random.Random(common.SEED * 9176 + 18)
+        chosen = select_sessions(tier, cases, rng)
+        t0 = time.time()
+        results = execute(chosen)
+        chk.extra["replay_wall_s"] = round(time.time() - t0, 1)
+        rep = Reporter(chk)
+        traces, index, nsteps = build_traces(chosen, results, rep)
+        chk.extra["library_calls"] = nsteps
+        import concurrent.futures as cf
+        with cf.ThreadPoolExecutor(max_workers=4) as ex:
+            vals = {w: ex.submit(validate_world, w, header_record(w), recs) for w, recs in traces.items()}
+            vals = {w: f.result() for w, f in vals.items()}
+        badcases = set()
+        for w, (r, rejects, nkeys) in vals.items():
+            chk.add_tlc(r, f"TraceSession {w}")
+            chk.extra.setdefault("trace", {})[w] = {"records": len(traces[w]), "call_identities": nkeys, "rejected": len(rejects)}
+            for ridx, clause in rejects:
+                case, i = index[w][ridx]
+                badcases.add(id(case))
+                c = case["steps"][i] if i is not None else None
+                call = call_name(*c) if c else "begin"
+                rep.violation("trace:" + clause, call, {"world": w, "word": case["word"], "steps": case["steps"],
+                                                        "step": (i + 1) if i is not None else 0, "call": call})
+        covered = set()
+        for case in chosen:
+            for c in case["steps"]:
+                covered.add((case["w"], c[0]))
+            if case.get("_okA") and id(case) not in badcases:
+                chk.ok(("S", case["w"], json.dumps(case["word"])),
+                       sample={"world": case["w"], "word": [call_name(*c) for c in case["word"]],
+                               "steps": [call_name(*c) for c in case["steps"]], "same": case["same"]})
+        if rep.count:
+            chk.extra["violation_summary"] = {f"{k[0]} @ {k[1]}": n for k, n in sorted(rep.count.items())}
+        chk.extra["entry_points_executed"] = len({e for (_w, e) in covered})
+        chk.extra["entry_points_in_registry"] = len(REG)
+        if chk.extra["entry_points_executed"] != len(REG):
+            missing = [REG[e - 1]["n"] for e in range(1, len(REG) + 1) if e not in {x for (_w, x) in covered}]
+            raise MachineryError(f"entry points never executed: {missing}")
+        return chk.finish()
+    finally:
+        shutil.rmtree(tmp, ignore_errors=True)
